@@ -96,6 +96,36 @@ func (s indSpec) configs(maxP int) [][3]int {
 	return out
 }
 
+// wideConfigs: configurations with one period far from the others (internal
+// buffer sizes that only matter when periods differ by more than the slack of
+// the goroutine chain); used by the termination check.
+func (s indSpec) wideConfigs() [][3]int {
+	if s.heavy {
+		return nil
+	}
+	lo := s.minP
+	if lo == 0 {
+		lo = 1
+	}
+	switch s.nper {
+	case 1:
+		return [][3]int{{9, 0, 0}}
+	case 2:
+		out := [][3]int{{lo, 9, 0}, {2, 12, 0}}
+		if !s.ordered {
+			out = append(out, [3]int{9, lo, 0})
+		}
+		return out
+	case 3:
+		out := [][3]int{{lo, 9, 2}, {2, 3, 9}}
+		if !s.ordered {
+			out = append(out, [3]int{9, 2, 1})
+		}
+		return out
+	}
+	return nil
+}
+
 type indGridOpt struct {
 	maxP, heavyP int // period bounds (heavy: search-tree based)
 	dn, heavyDn  int // inputs beyond the warm-up
